@@ -805,7 +805,7 @@ func init() {
 	core.Register(&core.Prop{
 		ID:        "C20",
 		Technique: "black-box monitor of the real plenctag binary (built from /repo) on generated Go files under all 16 flag combinations: AST comparison with tags blanked, independent re-statement of the tag rules, gofmt fixed point, go/types check, the real CodecForType on reflect twins of the output's structs, second-run idempotence",
-		Rule:      "generated files: named, grouped, generic and function-local struct types, anonymous and nested anonymous structs as field / slice element / map value / function parameter and result / composite literal, embedded T, *T, pkg.T and unexported types, multi-name fields, blank fields, doc and trailing comments, no / partial / complete plenc tags with options, other keys in random order incl. json:\"-\" and sql:\"-\"; every file under the 16 combinations of -w -json -sql -private, every third also as one of three files of one invocation, plus unparsable sources, malformed tags and an unreadable path. distinct = (file, flag set) pairs that passed every check",
+		Rule:      "generated files (one in four with number literals gofmt would rewrite, one in five with carriage returns, runs of blank lines and hundreds of blank lines at the end): named, grouped, generic and function-local struct types, anonymous and nested anonymous structs as field / slice element / map value / function parameter and result / composite literal, embedded T, *T, pkg.T and unexported types, multi-name fields, blank fields, doc and trailing comments, no / partial / complete plenc tags with options, other keys in random order incl. json:\"-\" and sql:\"-\"; every file under the 16 combinations of -w -json -sql -private, every third also as one of three files of one invocation, plus unparsable sources, malformed tags and an unreadable path. distinct = (file, flag set) pairs that passed every check",
 		Assume:    []string{"for -w=false the result is what the tool prints minus the newline fmt.Println adds", "go/parser, go/format, go/types (source importer) as independent judges", "twin structs use int for every field type: only tag errors are in question"},
 		Plan: func(tier string) []core.Lane {
 			if tier == "thorough" {
